@@ -18,7 +18,7 @@ pub const SPEC: FamilySpec = FamilySpec {
     profile: Profile::Bytes,
     fams: &[Fam::Bind, Fam::Alive, Fam::Panic],
     stall_is_violation: true,
-    runs_quick: 16_000,
+    runs_quick: 48_000,
     runs_thorough: 6_400_000,
     rule: "one case = one execution of (a) a seeded scenario with 1-8 concurrent bind requests from either side (both bind types, hosts of 0..40 bytes, answers accept / reject / drop / never with seeded delays so that answers arrive in every order, \
 responder with binds enabled or disabled) interleaved with 0-3 streams and datagrams; (b) a re-use run: the requester's RNG is scripted to hand out the id of a request that has just resolved for the next request or stream, immediately or after a quiescent point. \
